@@ -143,6 +143,6 @@ __attribute__((used, visibility("default"), no_sanitize("address", "thread", "un
 }
 __attribute__((used, visibility("default"), no_sanitize("address", "thread", "undefined"))) const char* __tsan_default_options()
 {
-    return "halt_on_error=0:exitcode=0:report_thread_leaks=0:second_deadlock_stack=0:history_size=4";
+    return "halt_on_error=0:exitcode=0:report_thread_leaks=0:history_size=4:suppress_equal_stacks=0:suppress_equal_addresses=0";
 }
 }
